@@ -5,8 +5,10 @@ Space   : tree-exhaustive nests bounded by total node count.
                     < { Body } > (small sizes); PM_i = `prepare_all; flips_i; measure_all` written
                     inline, SUB_i = `subcircuit { flips_i }`; c in 0..3
           family B  the same wrappers over the open leaves P = `prepare_all`, M_i = `flips_i;
-                    measure_all` (and PM_i), kept when the C12 model accepts the program and some
-                    prepare/measure pair straddles a block or loop boundary
+                    measure_all` (and PM_i), kept when the C12 model accepts the program with at
+                    least one subcircuit: pairs that straddle a block or loop boundary, repeated
+                    and trailing prepare_all.  Where the unrolled execution is not itself
+                    well-bracketed (mc.ref.execute.coherent) failures carry the prefix `straddle:`
           variants  counts literal; every count a let; lets declared with a wrong value and
                     overridden (all of them / only the first) through fill_in_let(circuit, override)
           flips_i = X on the qubits of the binary expansion of i+1, so that the value of a readout
@@ -68,9 +70,9 @@ GRAMMAR_DOC = {
     "A-mid": "leaves PM SUB; loop 0/2/3; top-level {..}",
     "A-lean": "leaves PM SUB; loop 0/2; top-level {..}",
     "A-core": "leaf PM; loop 0/2",
-    "B-rich": "leaves P M PM; loop 0/1/2/3; top-level {..}; model-accepted and straddling only",
-    "B-mid": "leaves P M; loop 0/1/2/3; top-level {..}; model-accepted and straddling only",
-    "B-lean": "leaves P M; loop 0/2; model-accepted and straddling only",
+    "B-rich": "leaves P M PM; loop 0/1/2/3; top-level {..}; model-accepted only",
+    "B-mid": "leaves P M; loop 0/1/2/3; top-level {..}; model-accepted only",
+    "B-lean": "leaves P M; loop 0/2; model-accepted only",
 }
 
 _CLOSERS = ("PM", "SUB", "M")  # leaves that carry a measure_all
@@ -256,24 +258,6 @@ def brute_visits(body, env):
     return [closing[g[2][0]] for g in seq if g[1] == E.M_GATE]
 
 
-def straddles(forest):
-    """some prepare/measure pair of the (accepted) program joins two different leaves with
-    different parents"""
-    opened = None
-    for path, t in _paths(forest, ()):
-        if t[0] != "L":
-            continue
-        if t[1] == "P":
-            opened = path
-        elif t[1] == "M":
-            if opened is not None and opened[:-1] != path[:-1]:
-                return True
-            opened = None
-        else:
-            opened = None
-    return False
-
-
 def skeleton(forest):
     out = []
     for t in forest:
@@ -303,7 +287,8 @@ class C08(Check):
         "every nest of loop c {..} (c in 0..3), top-level {..}, <{..}> over closed subcircuits (inline "
         "prepare_all..measure_all or subcircuit{}) with <= N nodes and <= 6 subcircuits (nests without any subcircuit "
         "only up to 3 nodes), plus the nests over open "
-        "prepare_all / measure_all leaves that the C12 model accepts and that straddle a loop or block boundary, "
+        "prepare_all / measure_all leaves that the C12 model accepts (straddling a loop or block boundary, repeated or "
+        "trailing prepare_all), "
         "plus let-valued and overridden counts on the smaller nests; non-trivial = at least one loop and one "
         "subcircuit; distinct by (variant, nest skeleton)"
     )
@@ -333,8 +318,8 @@ class C08(Check):
                 ("B", range(0, 4), "B-rich", VARIANTS, 2),
                 ("A", range(4, 5), "A-rich", VARIANTS, 1),
                 ("B", range(4, 5), "B-rich", ("lit", "ovr"), 1),
-                ("A", range(5, 6), "A-lean", ("lit",), 0),
-                ("B", range(5, 6), "B-lean", ("lit",), 0),
+                ("A", range(5, 6), "A-mid", ("lit",), 1),
+                ("B", range(5, 6), "B-lean", ("lit",), 1),
                 ("A", range(6, 7), "A-core", ("lit",), 0),
             ]
         return [
@@ -345,7 +330,7 @@ class C08(Check):
             ("A", range(5, 6), "A-rich", ("lit",), 1),
             ("A", range(5, 6), "A-lean", ("let", "ovr", "mix"), 1),
             ("B", range(5, 6), "B-mid", ("lit", "ovr"), 1),
-            ("A", range(6, 7), "A-lean", ("lit",), 0),
+            ("A", range(6, 7), "A-mid", ("lit",), 0),
             ("B", range(6, 7), "B-lean", ("lit",), 0),
             ("A", range(7, 8), "A-core", ("lit",), 0),
         ]
@@ -384,8 +369,8 @@ class C08(Check):
         if variant == "mix" and nl < 2:
             return False
         if fam == "B":
-            if not straddles(forest):
-                return False
+            if not any(l[1] in ("P", "M") for l in nestlib.leaves(forest)):
+                return False  # closed leaves only: that is family A
             prog, _ov, env = to_prog(forest, "lit", nq=1)
             ok, n = E.accepts(prog[2], env)
             if not ok or n == 0:
@@ -493,9 +478,11 @@ class C08(Check):
         except OutOfFuel:
             ctx.fail("non-termination", "run_jaqal_circuit out of fuel (%d steps); the model visits %r" % (budget, V[:20]))
         except impl.JaqalError as e:
-            ctx.fail("valid-program-rejected" + suffix, "model: %d subcircuit(s), visits %r; run_jaqal_circuit: JaqalError(%s)" % (nsub, V[:20], e))
+            sfx = suffix if suffix and self._literal_runs(forest, budget) else ""
+            ctx.fail("valid-program-rejected" + sfx, "model: %d subcircuit(s), visits %r; run_jaqal_circuit: JaqalError(%s)" % (nsub, V[:20], e))
         except Exception as e:  # noqa: BLE001
-            ctx.fail("crash" + suffix, "run_jaqal_circuit raised %s: %s" % (type(e).__name__, e))
+            sfx = suffix if suffix and self._literal_runs(forest, budget) else ""
+            ctx.fail("crash" + sfx, "run_jaqal_circuit raised %s: %s" % (type(e).__name__, e))
         if result is not None:
             self._judge_result(ctx, result, V, nsub, nq, coherent, emulated=True, what="run_jaqal_circuit")
 
@@ -504,6 +491,18 @@ class C08(Check):
             if result is None and nodes > 4:
                 return  # the same walker: one hang per case is enough on the larger nests
             self._output_lists(ctx, forest, variant, V, nsub, coherent, outmode, budget)
+
+    @staticmethod
+    def _literal_runs(forest, budget):
+        """diagnostic only (names the clause): does the same nest with literal counts run?  If it
+        does not, a failure under an override is not about the override."""
+        prog, _ov, _env = to_prog(forest, "lit")
+        try:
+            with fuel(budget):
+                impl.run_jaqal_circuit(impl.parse(render.text(prog), inject_pulses=gates.native_gates()))
+            return True
+        except BaseException:  # noqa: BLE001
+            return False
 
     @staticmethod
     def _touch(result):
